@@ -705,6 +705,18 @@ def m_vec_pop(ex, st, call):
     return None
 
 
+@model(r'^HashMap::clear$|^HashSet::clear$|^VecDeque::clear$|^IndexMap::clear$')
+def m_map_clear(ex, st, call):
+    r = call.args[0]
+    v = deref(ex, st, r)
+    st.event('map_clear', getattr(v, 'tok', None))
+    if isinstance(v, AbsVec):
+        ex.store(st, r.addr, r.path, AbsVec(z3.BitVecVal(0, 64), (v.tok, 'clear', len(st.events)), v.elem_ty))
+    else:
+        ex.store(st, r.addr, r.path, VecV((), getattr(v, 'elem_ty', None)))
+    return ex.ret(st, call, UNIT)
+
+
 @model(r'^Vec::clear$')
 def m_vec_clear(ex, st, call):
     r = call.args[0]
